@@ -9,10 +9,21 @@ open DocM Traverse Cascade
 
 namespace Groups
 
-def clamp01 (v : Float) : Float :=
-  -- max(min(value, 1.0), 0.0)
-  let m := if 1.0 < v then 1.0 else v
-  if m < 0.0 then 0.0 else m
+section
+variable {α : Type} [OfNat α 0] [OfNat α 1] [BEq α] [LT α] [DecidableLT α]
+
+/-- `_clamp(value)`: `max(min(value, 1.0), 0.0)` -/
+def clamp01 (v : α) : α :=
+  let m := if (1 : α) < v then (1 : α) else v
+  if m < (0 : α) then (0 : α) else m
+
+/-- the decision of `_is_removable_group` on what it looks at: is it a `g`, has it no attributes,
+    how many non-redundant children, its clamped opacity -/
+def removableCore (isGroup attrsEmpty : Bool) (k : Nat) (o : α) : Bool :=
+  if !isGroup then false
+  else if attrsEmpty then true
+  else decide (k ≤ 1) || (o == 0 || o == 1)
+end
 
 /-- `_opacity(el)` -/
 def opacity (n : Node) : Except PyErr Float :=
@@ -27,7 +38,7 @@ def isRemovable (n : Node) : Except PyErr Bool := do
   let k := (n.children.filter (fun c => c.isLxmlNode && !c.isRedundant)).length
   if k ≤ 1 then return true
   let o ← opacity n
-  pure (o == 0.0 || o == 1.0)
+  pure (removableCore true false k o)
 
 /-- `_try_remove_group(group_el, push_opacity)` for a group that has a parent: the nodes that take
     its place, and whether it was removed -/
